@@ -554,6 +554,10 @@ def m_deref(I, path, args):
 def m_as_ref(I, path, args):
     v = args[0]
     t = deref1(v)
+    if 'AsRef<[u8]>' in path and not isinstance(t, bool) and (isinstance(t, int) or is_sym(t)):
+        # <Uuid as AsRef<[u8]>>::as_ref (uuids are integers here): its 16 bytes
+        from .crypto import UuidByte
+        return mkref(PyVec([UuidByte(t, i) for i in range(16)]))
     pre = _manual_impl(I, 'AsRef', t)
     if pre and (pre + '::as_ref') in I.crate.index:
         return I.run(pre + '::as_ref', [v])
